@@ -451,7 +451,7 @@ func ruleListUnlinkBothSides(c *Ctx, r *R) {
 		r.undecided("xlist.List.remove|missing", token.NoPos, "anchor not found")
 		return
 	}
-	l, node := "param:"+fn.Params[0].Name(), "param:"+fn.Params[1].Name()
+	l, node := "param:"+pname(fn.Params[0]), "param:"+pname(fn.Params[1])
 	// the places a store can write to: the address itself, or - `*l.forwardLink(node) = …` - each address the in-package helper
 	// can return (in the caller's terms)
 	alternatives := func(addr ssa.Value) []string {
